@@ -1,0 +1,35 @@
+//! Verification hook (`--cfg foca_verif`): read-only view of `Probe`.
+use alloc::vec::Vec;
+
+use super::Probe;
+use crate::member::Member;
+
+/// Plain copy of the probe bookkeeping.
+#[derive(Debug, Clone, PartialEq, Eq)]
+pub struct VerifProbe<T> {
+    /// Member being probed, as recorded when the round started
+    pub direct: Option<Member<T>>,
+    /// Members asked to probe indirectly that have not answered yet
+    pub indirect: Vec<T>,
+    /// Current probe number
+    pub probe_number: u8,
+    /// Whether a valid direct Ack was seen
+    pub direct_ack_ok: bool,
+    /// Number of valid forwarded acks seen
+    pub indirect_ack_count: usize,
+    /// Whether the indirect stage timer fired this round
+    pub reached_indirect_probe_stage: bool,
+}
+
+impl<T: Clone> Probe<T> {
+    pub(crate) fn verif_view(&self) -> VerifProbe<T> {
+        VerifProbe {
+            direct: self.direct.clone(),
+            indirect: self.indirect.clone(),
+            probe_number: self.probe_number,
+            direct_ack_ok: self.direct_ack_ok,
+            indirect_ack_count: self.indirect_ack_count,
+            reached_indirect_probe_stage: self.reached_indirect_probe_stage,
+        }
+    }
+}
